@@ -674,7 +674,7 @@ func (rt *runtimeS) step(st Step) {
 		case "stop":
 			e.Conn = 0
 			tr.emit(e)
-			rt.srv.Stop()
+			rt.stopServer()
 		default:
 			panic("verif-harness: unknown fault " + st.What)
 		}
@@ -712,6 +712,29 @@ func (rt *runtimeS) step(st Step) {
 	}
 }
 
+// stopServer calls Stop from the scheduler. Stop only cancels the server's context: if it has not returned once
+// everything else has come to rest it never will, and that is reported instead of deadlocking the bubble.
+func (rt *runtimeS) stopServer() {
+	done := make(chan struct{})
+	go func() { rt.srv.Stop(); close(done) }()
+	synctest.Wait()
+	select {
+	case <-done:
+	default:
+		rt.g.mu.Lock()
+		held := len(rt.g.parked)
+		rt.g.mu.Unlock()
+		if held > 0 {
+			return // the harness itself holds a goroutine at a gate: a Stop that waits for it is not stuck by the library's doing
+		}
+		w := ev("Wedged")
+		w.X = "Server.Stop has not returned"
+		tr.emit(w)
+		tr.emit(ev("End"))
+		os.Exit(3)
+	}
+}
+
 func (rt *runtimeS) unwind() {
 	tr.emit(ev("Unwind"))
 	for _, c := range sortedKeys(rt.calls) {
@@ -739,7 +762,7 @@ func (rt *runtimeS) unwind() {
 		}
 	}
 	if rt.srv != nil {
-		rt.srv.Stop()
+		rt.stopServer()
 	}
 	for _, f := range rt.extra {
 		f()
